@@ -309,7 +309,7 @@ class C28(Property):
             pos = [dyadic(rng, -4, 16, 2), dyadic(rng, -4, 16, 2)]
             c = dict(kind="true-solution" if k % 2 else "update", seed=rng.randint(0, 2**31), object_shape=[sx, sy], probe_shape=[nx, ny],
                      position=pos, old_position=rng.choice([pos, [pos[0] + 0.25, pos[1] - 0.5]]),
-                     alpha=rng.choice([1.0, 0.5, 0.125]), beta=rng.choice([1.0, 0.25]), object_step=rng.choice([1.0, 0.5]),
+                     alpha=rng.choice([1.0, 0.5, 0.125, 0.0]), beta=rng.choice([1.0, 0.25, 0.0]), object_step=rng.choice([1.0, 0.5]),
                      probe_step=rng.choice([1.0, 0.75]), fix_probe=rng.random() < 0.3)
             out.append(c)
         for _ in range(ctx.n(150, 3000)):
